@@ -88,8 +88,10 @@ check("C06", "concurrent gets, puts and deletes are linearizable", [
 ], [SIMFS, CLOCK, HASH, BLOOM, RAND, LOG, "Tier B: schedules enumerated exhaustively up to the preemption bound; data symbolic in every schedule"], [">2 clients", "compaction worker", "Close"])
 
 check("C07", "no race, crash or hang under concurrent use", [
-    ob("VerifC07_Pairs", "pkg/engine", "every unordered pair of ten EngineFacade entry points from two goroutines: no data race, panic, deadlock; both return",
-       "55 pairs, preemption bound 1", "preemption bound 2", q=P1, t=P2, no_validate=True, termination=True),
+    ob("VerifC07_Pairs", "pkg/engine", "every unordered pair of thirteen EngineFacade entry points from two goroutines: no data race, panic, deadlock; both return",
+       "91 pairs of 13 entry points (put, get, delete, scan, tx, flush, stats, batch, is-deleted, read-only tx, tx with a refused commit, compaction, range scan + compaction stats), preemption bound 1", "preemption bound 2", q=P1, t={"preempt": 2, "budget_s": 3000}, no_validate=True, termination=True),
+    ob("VerifC07_WritersVsBackgroundFlush", "pkg/engine", "two clients writing twice each into an engine with a 1-byte memtable while the real background flush goroutine runs as a third thread (explicit flush as a fourth in thorough): no race/panic/deadlock, every call returns, last acknowledged writes readable",
+       "3 threads, preemption bound 1, background flush loop started as a thread", "4 threads", q={"preempt": 1, "background": ["backgroundFlush"], "budget_s": 500}, t={"preempt": 1, "background": ["backgroundFlush"], "budget_s": 3000}, no_validate=True, termination=True),
     ob("VerifC07_TombstoneTracker", "pkg/compaction", "TombstoneTracker.AddTombstone || ShouldKeepTombstone", "2 threads, preemption bound 1", q=P1, no_validate=True),
 ], [SIMFS, CLOCK, HASH, BLOOM, RAND, LOG, "Tier B: vector-clock race detector over the interpreter's memory cells; schedules up to the preemption bound"], ["Close concurrent with other calls", ">2 simultaneous calls"])
 
